@@ -65,9 +65,10 @@ Theorem C03_single_wiring : forall (D : list val -> list (string * val) -> R) (K
     (ifu : bool) (ddt dd dl beta lam lifu al be g x y kap mu : R) (rg : nat -> R) (cu : nat),
   let l := (if ifu then lifu else lam) + al * x + be * y in
   1/10000 <= l * (1 - kap) ->
-  let args := [num (ddt * (l * (1 - kap))); num (dd * (1 + g) / 2)] in
+  (* the lens is assigned to a global Gaussian line-of-sight population: numpy's size=1 draw makes Ddt and the magnitude 1-element arrays *)
+  let args := [VArr [num (ddt * (l * (1 - kap)))]; num (dd * (1 + g) / 2)] in
   let kws := [("beta_dsp", num beta); ("kin_scaling", K (dict [("lambda_mst", num l); ("gamma_ppn", num g)]));
-              ("sigma_v_sys_error", VNone); ("mu_intrinsic", num (mu + dl + 5 * log10 (l * (1 - kap))));
+              ("sigma_v_sys_error", VNone); ("mu_intrinsic", VArr [num (mu + dl + 5 * log10 (l * (1 - kap)))]);
               ("gamma_pl", VInt 2); ("lambda_mst", num l)] in
   yields (Gw D K) 100 (CFun src_LensLikelihood_log_likelihood_single) (Some (lens_self ifu x y))
     [num ddt; num dd; num dl; num beta; dict (lens_kws lam lifu al be g); dict [];
